@@ -17,6 +17,8 @@ def gram_corr(r: random.Random, k: int) -> List[List[float]]:
 
 
 def gen_fund(r: random.Random, profile: str = "scripted") -> Dict[str, Any]:
+    if profile == "scripted" and r.random() < 0.08:
+        return gen_direct(r)
     n = r.randint(1, 5)
     markets = []
     for i in range(n):
@@ -83,6 +85,35 @@ def gen_fund(r: random.Random, profile: str = "scripted") -> Dict[str, Any]:
             "f": {"markets": markets, "corr": corr, "late": late}, "fops": ops,
             "knobs": {"generation_chunk": chunk, "storage_chunk": r.choice([None, 3, 7]) if chunk else None},
             "scripted_normal": profile == "scripted"}
+
+
+def gen_direct(r: random.Random) -> Dict[str, Any]:
+    """the Fundamentals object on its own: markets registered under arbitrary ids in arbitrary order."""
+    import numpy as np
+    n = r.randint(2, 4)
+    markets = [{"initial": r.choice([100.0, 300.0, 1.0]), "drift": r.choice([0.0, 0.001, -0.002]),
+                "vol": r.choice([0.0, 0.01, 0.015, 0.03]) if i else r.choice([0.01, 0.02])} for i in range(n)]
+    ids = r.sample(range(0, 12), n)
+    if r.random() < 0.3:
+        ids.sort()
+    volat = [i for i in range(n) if markets[i]["vol"] != 0]
+    corr = []
+    if len(volat) >= 2:
+        C = gram_corr(r, len(volat))
+        for a in range(len(volat)):
+            for b in range(a + 1, len(volat)):
+                if r.random() < 0.8:
+                    corr.append([volat[a], volat[b], max(-0.9, min(0.9, round(C[a][b], 6)))])
+        M = np.eye(len(volat))
+        for a, b, c in corr:
+            M[volat.index(a), volat.index(b)] = c
+            M[volat.index(b), volat.index(a)] = c
+        if np.linalg.eigvalsh(M).min() <= 0.05:
+            corr = corr[:1] if abs(corr[0][2]) < 0.9 else []
+    return {"format": 1, "driver": "F", "runner_seed": r.randrange(2 ** 31),
+            "f": {"markets": markets, "corr": corr, "direct_ids": ids, "steps": r.choice([30, 60, 130]),
+                  "readd": [r.randrange(n)] if r.random() < 0.25 else []},
+            "fops": [], "knobs": {"generation_chunk": r.choice([None, None, 5, 9])}, "scripted_normal": True}
 
 
 def gen_ahead(r: random.Random) -> Dict[str, Any]:
